@@ -561,17 +561,18 @@ pub fn one_spelling(f: &Forest) -> bool {
 pub fn c07(id: &str, f: &Forest, r: &[(CompressionType, Enc)], out: &mut Vec<String>) {
     let mut rng = Rng::new(seed_of(id));
     // (a) the same logical DOM with fresh Refs and another property insertion order
-    for round in 0..2 {
+    // round 2: additionally through a longer history (insert a scratch copy, destroy it, insert again)
+    for round in 0..3 {
         let mut fresh: HashMap<u64, Ref> = HashMap::new();
         let mut prng = rng.fork();
-        let dom2 = forest::build_dom_with(f, &mut |l| *fresh.entry(l).or_insert_with(Ref::new), Some(&mut prng));
+        let dom2 = forest::build_dom_history(f, &mut |l| *fresh.entry(l).or_insert_with(Ref::new), Some(&mut prng), round == 2);
         let roots2: Vec<Ref> = f.roots.iter().map(|l| *fresh.entry(*l).or_insert_with(Ref::new)).collect();
         for (c, e) in r {
             let e2 = encode(&dom2, &roots2, *c);
             if !same_outcome(e, &e2) {
                 let one_spelling = one_spelling(f);
                 let key = if one_spelling { "rebuild-differs" } else { "rebuild-differs-two-spellings" };
-                out.push(format!("{id} C07 {key} comp={c:?} round={round}: original {} vs rebuilt (fresh Refs, shuffled properties) {}", describe(e), describe(&e2)));
+                out.push(format!("{id} C07 {key} comp={c:?} round={round}: original {} vs rebuilt (fresh Refs, shuffled properties{}) {}", describe(e), if round == 2 { ", after inserting and destroying a scratch copy" } else { "" }, describe(&e2)));
                 return;
             }
         }
